@@ -58,6 +58,10 @@ pub trait Engine: Sync + Send {
     fn exhaustive_note(&self, _quick: bool) -> Option<String> {
         None
     }
+    /// True when the finite space named in `exhaustive_note` was enumerated completely.
+    fn exhaustive(&self, _quick: bool) -> bool {
+        false
+    }
     /// Execute every run on a fresh OS thread (clean thread-local state per run).
     fn fresh_thread_per_run(&self) -> bool {
         false
